@@ -32,7 +32,7 @@ pub struct WReq {
 const NAMES: &[&str] = &["example.com", "a", "EXAMPLE.Com", "xn--bcher-kva.example", "host-1.internal.", "127.0.0.1", "10.1.2.3", "255.255.255.255", "localhost"];
 const V6: &[&str] = &["::1", "2001:db8::5", "fe80::1:443", "::ffff:1.2.3.4", "::", "1:2:3:4:5:6:7:8080"];
 const METHODS: &[&str] = &["GET", "POST", "PUT", "DELETE", "HEAD", "OPTIONS", "PATCH", "M-SEARCH", "get", "PROPFIND"];
-const PATHQ: &[&str] = &["", "/", "/a/b?x=1", "?q=1", "/path:with:colons", "/%20x", "/http://nested/", "/a?b=http://c:81/", "?", "/@x", "/a#frag"];
+const PATHQ: &[&str] = &["", "/", "/a/b?x=1", "?q=1", "/path:with:colons", "/%20x", "/http://nested/", "/a?b=http://c:81/", "?", "/@x", "/a#frag", "?notify=ops@other.org", "?to=a@b/c", "/p?x=a@b", "?u=http://x@y:81/z", "?@", "/?@h:1"];
 const OTHER: &[&str] = &[
     "User-Agent: curl/8.0", "Accept: */*", "Hostile: yes", "X-Host: other.example:99", "Proxy-Connection: keep-alive",
     "Content-Length: 5", "Content-Type: text/plain; charset=utf-8", "X-Colons: a:b:c", "X-Name: caf\u{e9} \u{3000}x", "Connection: close",
@@ -206,6 +206,8 @@ impl Group for HttpGroup {
             ("GET http://[::1]:8080/x HTTP/1.1\r\n\r\n", "::1", 8080, 0, Some("GET /x HTTP/1.1\r\nHost: [::1]:8080\r\n\r\n")),
             ("GET / HTTP/1.1\r\nHost: [2001:db8::5]\r\n\r\n", "2001:db8::5", 80, 0, Some("GET / HTTP/1.1\r\nHost: [2001:db8::5]\r\n\r\n")),
             ("GET http://example.com?x=1 HTTP/1.1\r\n\r\n", "example.com", 80, 0, Some("GET /?x=1 HTTP/1.1\r\nHost: example.com\r\n\r\n")),
+            ("GET http://example.com?notify=ops@other.org HTTP/1.1\r\n\r\n", "example.com", 80, 0, Some("GET /?notify=ops@other.org HTTP/1.1\r\nHost: example.com\r\n\r\n")),
+            ("GET http://example.com:8080?to=a@b/c HTTP/1.1\r\n\r\n", "example.com", 8080, 0, Some("GET /?to=a@b/c HTTP/1.1\r\nHost: example.com:8080\r\n\r\n")),
             ("CONNECT [::1]:443 HTTP/1.1\r\n\r\n", "::1", 443, 1, None),
         ] {
             v.push(Case { lines: vec![format!("http wf {} - {} {} {} {}", hex(hd.as_bytes()), hex(host.as_bytes()), port, c, fwd.map(|f| hex(f.as_bytes())).unwrap_or("none".into()))] });
